@@ -151,12 +151,17 @@ def snap_graph(g):
                 text=str(g))
 
 
+def _dom_repr(d):
+    # read through size()/values, never through to_json(): the JSON writers are themselves monitored queries
+    return repr((type(d).__name__, d.size(), [(type(v).__name__, v) for v in getattr(d, 'values', [])]))
+
+
 def snap_interp(x):
-    doms = {k: repr(d.to_json()) for k, d in x.domains.items()}
+    doms = {k: _dom_repr(d) for k, d in x.domains.items()}
     facs = {}
     for k, f in x.factors.items():
         w = getattr(f, 'weights', None)
-        facs[k] = (tuple(repr(d.to_json()) for d in f.domains), repr(w.to_dense().tolist()) if w is not None else repr(getattr(f, 'weight', None)))
+        facs[k] = (tuple(_dom_repr(d) for d in f.domains), repr(w.to_dense().tolist()) if w is not None else repr(getattr(f, 'weight', None)))
     return dict(domains=doms, factors=facs)
 
 
